@@ -15,7 +15,8 @@ VERIF = Path(__file__).resolve().parents[1]
 man = json.loads((VERIF / "MANIFEST.json").read_text())
 targets = []
 for c in man["checks"]:
-    m = importlib.import_module("props." + c["property_id"].lower())
+    from lib import core as _core
+    m = _core.load_plugin(c["property_id"])
     for t in list(getattr(m, "LEAN_TARGETS", [])) + list(getattr(m, "DRIVERS", [])):
         if t not in targets:
             targets.append(t)
